@@ -551,14 +551,25 @@ def gen_enumvalue(rng, tier, n_classes):
             fields.append({"name": nm, "site": rng.choice(ENUM_SITES), "enum": ename, "byValue": rng.random() < 0.7})
         if rng.random() < 0.4:
             fields.append({"name": "z_n", "site": "int"})
+        # other vocabulary the model does not have: DecimalNumber fields, Constant attributes (int / enum member)
+        if rng.random() < 0.3:
+            fields.append({"name": "z_d", "site": "decimal"})
+        if rng.random() < 0.25:
+            fields.append({"name": "z_k", "site": "constInt"})
+        if rng.random() < 0.25:
+            fields.append({"name": "z_e", "site": "constEnum", "enum": rng.choice(sorted(gen.ENUMS))})
         kinds = pick_kinds(rng)
-        required = [f["name"] for f in fields if rng.random() < 0.6]
+        required = [f["name"] for f in fields if rng.random() < 0.6 and not f["site"].startswith("const")]
         for _ in range(3):
             vals = []
             for f in fields:
+                if f["site"].startswith("const"):
+                    continue
                 if f["name"] not in required and rng.random() < 0.3:
                     continue
-                if f["site"] == "int":
+                if f["site"] == "decimal":
+                    vals.append([f["name"], rng.choice(["1.5", "0.25", 2, "10"])])
+                elif f["site"] == "int":
                     vals.append([f["name"], rng.choice([0, 1, 7])])
                 elif f["site"] in ("array", "set"):
                     k = rng.randint(0, 3)
@@ -574,8 +585,10 @@ def gen_enumvalue(rng, tier, n_classes):
 
 
 def run_enumvalue(case):
-    from typedpy import Enum as EnumF, Array as ArrayF, Set as SetF, AnyOf as AnyOfF, Integer as IntegerF
+    from typedpy import Enum as EnumF, Array as ArrayF, Set as SetF, AnyOf as AnyOfF, Integer as IntegerF, DecimalNumber
+    from typedpy.commons import Constant
     from typedpy.structures import NoneField
+    from decimal import Decimal
     ctx = make_ctx(case)
 
     def body():
@@ -583,6 +596,15 @@ def run_enumvalue(case):
         for f in case["fields"]:
             if f["site"] == "int":
                 b[f["name"]] = IntegerF()
+                continue
+            if f["site"] == "decimal":
+                b[f["name"]] = DecimalNumber()
+                continue
+            if f["site"] == "constInt":
+                b[f["name"]] = Constant(7)
+                continue
+            if f["site"] == "constEnum":
+                b[f["name"]] = Constant(ctx.enums[f["enum"]][gen.ENUMS[f["enum"]][0]])
                 continue
             mk = lambda: EnumF(values=ctx.enums[f["enum"]], serialization_by_value=bool(f["byValue"]))
             b[f["name"]] = {"field": mk, "optional": lambda: AnyOfF([mk(), NoneField()]),
@@ -611,6 +633,9 @@ def run_enumvalue(case):
         f = spec[nm]
         if f["site"] == "int":
             doc[nm] = kw[nm] = v
+        elif f["site"] == "decimal":
+            doc[nm] = v
+            kw[nm] = Decimal(v)
         elif f["site"] in ("array", "set"):
             doc[nm] = [json_of(f, m) for m in v]
             ms = [member(f, m) for m in v]
@@ -642,6 +667,22 @@ def run_enumvalue(case):
         res["fast_regular"], res["fast"] = rec(a), rec(b)
         res["fast_same"] = not isinstance(a, Exception) and not isinstance(b, Exception) and _unordered(a) == _unordered(b)
         res["regular_ser_ok"] = not isinstance(a, Exception)
+        if isinstance(a, dict) and isinstance(b, dict):
+            res["fast_diff_keys"] = sorted(k for k in set(a) | set(b)
+                                           if (k in a) != (k in b) or _unordered(a.get(k)) != _unordered(b.get(k)))
+    # trusted construction
+    t = attempt(lambda: P.from_trusted_data(None, **copy.deepcopy(kw)))
+    if not isinstance(p, Exception):
+        res["ftd"] = rec(t)
+        if not isinstance(t, Exception):
+            res["ftd_eq"] = [bool(p == t), bool(t == p)]
+            a, b = attempt(lambda: Serializer(p).serialize()), attempt(lambda: Serializer(t).serialize())
+            res["ftd_ser_same"] = not isinstance(a, Exception) and not isinstance(b, Exception) and _unordered(a) == _unordered(b)
+            consts = {f["name"] for f in case["fields"] if f["site"].startswith("const")}
+            names = {f["name"] for f in case["fields"]}
+            pd, td = ({k: v for k, v in o.__dict__.items() if k in names} for o in (p, t))
+            res["ftd_only_consts"] = (set(pd) - set(td) <= consts and set(td) <= set(pd)
+                                      and all(bool(pd[k] == td[k]) for k in td))
     return res
 
 
@@ -901,6 +942,7 @@ def line(case, impl):
         l["serializeNone"] = case["serializeNone"]
         l["compact"] = case["compact"]
         l["nonFast"] = case.get("nonFast", [])
+        l["jsonEnums"] = sorted(n for n, k in (case.get("enumKinds") or {}).items() if k != "plain")
     return l
 
 
@@ -934,8 +976,10 @@ def tags(case, impl, model):
         out.append("enum-kind:" + kind)
     if case["mode"] == "enumvalue":
         for f in case["fields"]:
-            if f["site"] != "int":
+            if f["site"] in ENUM_SITES:
                 out.append("enum-site:" + f["site"] + (":by-value" if f["byValue"] else ":by-name"))
+            elif f["site"] != "int":
+                out.append("probe-site:" + f["site"])
         out.append("verdict:" + str(impl.get("verdict")))
         return out
     if case.get("mapperSpec"):
